@@ -301,13 +301,21 @@ structure FitResult (T K : Type) where
 
 def FitResult.wasSuccessful (r : FitResult T K) : Bool := r.report.termination.wasSuccessful
 
-/-- `LevMarSolver::fit`: `Ok` iff the termination reason counts as successful; both branches
-carry the final problem (converted with `into_sequential`, the identity on all fields) and the
-report -/
+/-- the report `fit` hands out: the optimizer's, except that a successful reason is replaced by
+`User(..)` when the final problem exposes no residuals (the optimizer cannot observe a model failure
+in its final `set_params`) -/
+def finalReport (P : LSP T K Vx Vr J) (problem : T) (report : Report K) : Report K :=
+  if report.termination.wasSuccessful && (P.residuals problem).isNone then
+    { report with termination := .user "model failed when the final parameters were applied" }
+  else report
+
+/-- `LevMarSolver::fit`: `Ok` iff the (final) termination reason counts as successful; both
+branches carry the final problem (converted with `into_sequential`, the identity on all fields) and
+the report -/
 def fit (P : LSP T K Vx Vr J) (o : Ops K Vx Vr J LLS) (nm : Num K) (cfg : Config K) (target : T) :
     Except (FitResult T K) (FitResult T K) :=
   let (problem, report) := minimize P o nm cfg target
-  let result : FitResult T K := { problem := problem, report := report }
+  let result : FitResult T K := { problem := problem, report := finalReport P problem report }
   if result.wasSuccessful then .ok result else .error result
 
 /-- `LevMarSolver::fit_with_statistics`; `coeffs` is `linear_coefficients()`, `stats` is
